@@ -136,10 +136,7 @@ func (f *Fn) prov(e ast.Expr, depth int, busy map[*types.Var]bool) string {
 					busy[o] = true
 					set := map[string]bool{base: true}
 					for _, d := range defs {
-						s := g.enclosing(d.rhs).prov(d.rhs, depth+1, busy)
-						if d.multi {
-							s += fmt.Sprintf("#%d", d.idx)
-						}
+						s := g.provDef(d, depth, busy)
 						for _, alt := range strings.Split(s, "|") {
 							set[alt] = true
 						}
@@ -164,11 +161,7 @@ func (f *Fn) prov(e ast.Expr, depth int, busy map[*types.Var]bool) string {
 			}
 			set := map[string]bool{}
 			for _, d := range defs {
-				s := f.enclosing(d.rhs).prov(d.rhs, depth+1, busy)
-				if d.multi {
-					s += fmt.Sprintf("#%d", d.idx)
-				}
-				set[s] = true
+				set[f.provDef(d, depth, busy)] = true
 			}
 			var ss []string
 			for s := range set {
@@ -204,6 +197,11 @@ func (f *Fn) prov(e ast.Expr, depth int, busy map[*types.Var]bool) string {
 				return "builtin:" + id.Name + "(" + a + ")"
 			}
 		}
+		if lit := f.litOfCallee(x); lit != nil {
+			if s, ok := f.provLitCall(x, lit, 0, depth+1, busy); ok {
+				return s
+			}
+		}
 		if k := f.CallKey(x); k != "" {
 			if provTransparent[k] && len(x.Args) == 1 {
 				return f.prov(x.Args[0], depth, busy)
@@ -229,6 +227,105 @@ func (f *Fn) prov(e ast.Expr, depth int, busy map[*types.Var]bool) string {
 		return "funclit"
 	}
 	return "?" + fmt.Sprintf("%T", e)
+}
+
+// provDef renders the value one definition gives its variable.
+func (f *Fn) provDef(d vdef, depth int, busy map[*types.Var]bool) string {
+	g := f.enclosing(d.rhs)
+	if call, ok := ast.Unparen(d.rhs).(*ast.CallExpr); ok && d.multi {
+		if lit := g.litOfCallee(call); lit != nil {
+			if s, ok := g.provLitCall(call, lit, d.idx, depth+1, busy); ok {
+				return s
+			}
+		}
+	}
+	s := g.prov(d.rhs, depth+1, busy)
+	if d.multi {
+		s += fmt.Sprintf("#%d", d.idx)
+	}
+	return s
+}
+
+// litOfCallee: the function literal a call runs, when that is known syntactically - an
+// immediately invoked literal (what an inlined helper looks like), or a local variable that
+// is defined exactly once, by a literal.
+func (f *Fn) litOfCallee(call *ast.CallExpr) *ast.FuncLit {
+	switch fun := ast.Unparen(call.Fun).(type) {
+	case *ast.FuncLit:
+		return fun
+	case *ast.Ident:
+		v, ok := f.Info.ObjectOf(fun).(*types.Var)
+		if !ok || v.Pkg() == nil || v.Parent() == v.Pkg().Scope() || v.IsField() {
+			return nil
+		}
+		for g := f; g != nil; g = g.Parent {
+			if g.paramIndex(v) != -2 {
+				return nil
+			}
+		}
+		defs := f.defsOf(v)
+		if len(defs) != 1 || defs[0].multi {
+			return nil
+		}
+		lit, _ := ast.Unparen(defs[0].rhs).(*ast.FuncLit)
+		return lit
+	}
+	return nil
+}
+
+// provLitCall: the provenance of result #idx of a call of a known literal is the join over
+// the literal's return statements, with the literal's parameters replaced by the arguments.
+func (f *Fn) provLitCall(call *ast.CallExpr, lit *ast.FuncLit, idx, depth int, busy map[*types.Var]bool) (string, bool) {
+	if depth > 12 {
+		return "", false
+	}
+	owner := f.enclosing(lit)
+	h := owner.Closure(lit)
+	rets := h.Returns()
+	if len(rets) == 0 {
+		return "", false
+	}
+	set := map[string]bool{}
+	for _, r := range rets {
+		if idx >= len(r.Results) {
+			return "", false // bare return of named results
+		}
+		for _, alt := range splitAlts(h.prov(r.Results[idx], depth+1, busy)) {
+			set[alt] = true
+		}
+	}
+	// parameters -> arguments
+	np := 0
+	if lit.Type.Params != nil {
+		for _, fld := range lit.Type.Params.List {
+			n := len(fld.Names)
+			if n == 0 {
+				n = 1
+			}
+			np += n
+		}
+	}
+	var ss []string
+	for alt := range set {
+		if np > 0 && strings.Contains(alt, "lit.param#") {
+			if np != len(call.Args) {
+				return "", false
+			}
+			for i := np - 1; i >= 0; i-- {
+				tag := fmt.Sprintf("lit.param#%d", i)
+				if strings.Contains(alt, tag) {
+					arg := f.prov(call.Args[i], depth+1, busy)
+					if strings.Contains(arg, "|") {
+						return "", false
+					}
+					alt = strings.ReplaceAll(alt, tag, arg)
+				}
+			}
+		}
+		ss = append(ss, alt)
+	}
+	sort.Strings(ss)
+	return strings.Join(ss, "|"), true
 }
 
 // ---------------------------------------------------------------------------------------
